@@ -13,11 +13,13 @@ META = {
 
 RULES = ["pre158", "eip158", "cancun", "amsterdam"]
 LEANOPS = '{"BeginTx", "AddBalance", "SubBalance", "SetNonce", "SetState", "SelfDestruct", "CreateAccount", "EvmCreate", "Snapshot", "Revert", "Finalise"}'
+STOREOPS = '{"BeginTx", "SetState", "Finalise", "IntermediateRoot"}'
+STOREOPS_T = '{"BeginTx", "SetState", "Snapshot", "Revert", "Finalise", "IntermediateRoot"}'
 TOUCHOPS = '{"BeginTx", "AddBalance", "SubBalance", "SetState", "CreateAccount", "EvmCreate", "Snapshot", "Revert", "Finalise"}'
 ALLOPS = '{"BeginTx", "AddBalance", "SubBalance", "SetBalance", "SetNonce", "SetCode", "SetState", "SelfDestruct", "CreateAccount", "EvmCreate", "Snapshot", "Revert", "Finalise"}'
 
 
-def edges_cfg(ctx, rules, bases, ripemd, name, ops=None, maxsnap=1):
+def edges_cfg(ctx, rules, bases, ripemd, name, ops=None, maxsnap=1, maxtx=1, maxval=1):
     """MC config whose every transition is printed (full states, so that paths can be rebuilt)."""
     p = os.path.join(ctx.scratch, name + ".cfg")
     with open(p, "w") as f:
@@ -25,12 +27,12 @@ def edges_cfg(ctx, rules, bases, ripemd, name, ops=None, maxsnap=1):
 CONSTANTS NA = 1
           NS = 1
           Ripemd = %d
-          MaxVal = 1
+          MaxVal = %d
           MaxBal = 1
           MaxNonce = 1
           MaxCode = 1
           MaxSnap = %d
-          MaxTx = 1
+          MaxTx = %d
           MaxLogs = 0
           MaxRefund = 0
           Ops = %s
@@ -43,7 +45,7 @@ INVARIANTS InvType InvRevert InvFinalise InvFeasible
 ACTION_CONSTRAINT Edge
 VIEW View
 CHECK_DEADLOCK FALSE
-""" % (ripemd, maxsnap, ops or ALLOPS, ", ".join('"%s"' % r for r in rules), ", ".join(str(b) for b in bases)))
+""" % (ripemd, maxval, maxsnap, maxtx, ops or ALLOPS, ", ".join('"%s"' % r for r in rules), ", ".join(str(b) for b in bases)))
     return p
 
 
@@ -76,8 +78,16 @@ def run(ctx):
     # EIP-161 touch semantics incl. the zero-value touch of 0x03 that survives reverts: small graph (operations
     # that may or may not touch, nested snapshots, empty base account, EIP-158 rule sets), replayed completely
     plans.append((RULES[1:] if ctx.thorough else ["eip158", RULES[2 + ctx.seed % 2]], [0, 1, 2], 1, TOUCHOPS, ctx.pick(1, 2), 0))
-    for i, (rules, bases, ripemd, ops, maxsnap, maxpaths) in enumerate(plans):
-        cfg = edges_cfg(ctx, rules, bases, ripemd, "edges%d" % i, ops, maxsnap)
+    # storage across the transactions of a block: one slot cycling through three values over four transactions
+    # that end with Finalise only (writes stay pending) or with IntermediateRoot (writes are flushed into the
+    # tries), in every mixture - the model keeps the storage as of the last flush (S.fl), so every mixture is a
+    # distinct node of the graph and every edge out of it is replayed
+    plans.append((RULES if ctx.thorough else [RULES[ctx.seed % 4], RULES[(ctx.seed + 1) % 4]], [0, 3], 0,
+                  STOREOPS_T if ctx.thorough else STOREOPS, ctx.pick(0, 1), 0, 4, 2))
+    for i, plan in enumerate(plans):
+        rules, bases, ripemd, ops, maxsnap, maxpaths = plan[:6]
+        maxtx, maxval = (plan[6], plan[7]) if len(plan) > 6 else (1, 1)
+        cfg = edges_cfg(ctx, rules, bases, ripemd, "edges%d" % i, ops, maxsnap, maxtx, maxval)
         res = ctx.model_check("state/MCStateDB", cfg, tags=("EDGE",), timeout=ctx.pick(1800, 3600),
                               name="MCStateDBEdges[%s,ripemd=%d]" % (",".join(rules), ripemd), workers=4)
         edges = res.lines.get("EDGE", [])
@@ -108,9 +118,15 @@ def run(ctx):
     # Snapshot; SetCode; RevertToSnapshot on an account whose code was never read loses the code.  The
     # histories above read the code before SetCode (as the EVM does); the probe keeps the reproduction alive
     # and reports it as a note, not as a verdict.
-    ps, _ = ctx.drive(drv, ["-mode", "probe"], name="c13-probe", timeout=600)
+    ps, _ = ctx.drive(drv, ["-mode", "probe"], name="c13-probe", timeout=1800)
     if ps.get("extra", {}).get("setcode_revert_loses_uncached_code"):
-        ctx.notes.append("candidate finding C13-F1 reproduced (raw SetCode + revert loses uncached code); replay: spec/state/findings/C13-F1.json")
+        if ctx.known_finding("C13-F1", "raw SetCode + RevertToSnapshot loses uncached code"):
+            pass                                    # listed as open in known_findings.json: KNOWN-FINDING line
+        elif any(kf.get("id") == "C13-F1" for kf in ctx._known_findings):
+            ctx.violation("regression of fixed finding C13-F1: Snapshot; SetCode; RevertToSnapshot on an account whose code was not read loses the code",
+                          {"kind": "behaviour", "driver": "c13-probe", "replay": "spec/state/findings/C13-F1.json"})
+        else:                                       # not (yet) decided by the coordinator: reported, never a verdict
+            ctx.notes.append("candidate finding C13-F1 reproduced (raw SetCode + revert loses uncached code); replay: spec/state/findings/C13-F1.json")
 
     # V: recorded executions of the real code validated by the trace specification
     tp = os.path.join(ctx.scratch, "trace.ndjson")
